@@ -590,6 +590,8 @@ def model_task(task, ybin, root):
     first.steps.append(("steernullitems", M.Union((("int32", M.Prim("int32")), ("string", M.Prim("string"))), nullable=True), True))
     if want_cpp:
         first.steps.append(("steerlongvec", M.Vec(M.Prim("uint8")), True))
+    # items that are arrays of vectors: what the reader hands out for each vector (an array) has to be accepted by the writer
+    first.steps.append(("steerarrvec", M.Arr(M.Vec(M.Prim(rng.choice(["int16", "float32", "uint8"]))), rng.choice([None, 1])), True))
     # items that are numeric arrays: the readers may hand out views of their staging buffer
     first.steps.append(("steerarr", M.Arr(M.Prim(rng.choice(["float32", "int16", "float64", "complexfloat32"])), rng.choice([None, 1, 2, ((None, 3),)])), True))
     model = P.PyModel(pkg, ybin, root, want_cpp=want_cpp, cpp_opts=C.CPP_OPTS)
